@@ -47,6 +47,7 @@ class Execution:
         self.sem = {}
         self.state = {}            # name -> ready | blocked | finishing | done
         self.blocked_on = {}
+        self._lastline = {}        # frame -> line it is on (see _local)
         self.strict = set()        # threads waiting in the harness' final drain: only the target's real end releases them
         self.ident = {}
         self.threads = {}          # name -> Thread object (children only)
@@ -97,8 +98,16 @@ class Execution:
         return None
 
     def _local(self, frame, event, arg):
+        # A scheduling point is "this frame moves to a NEW line".  CPython 3.12 may or may not deliver a second 'line' event for the line a
+        # frame is already on when a callee returns into the middle of it (it depends on how far the adaptive interpreter has specialised
+        # the bytecode, i.e. on how often the code ran before) - counting those would make the number of scheduling points of one and the
+        # same schedule drift during an exploration.  (Consequence: a busy loop written on a single line without calls has one point only.)
         if event == 'line':
-            self.point()
+            if self._lastline.get(frame) != frame.f_lineno:
+                self._lastline[frame] = frame.f_lineno
+                self.point()
+        elif event == 'return':
+            self._lastline.pop(frame, None)
         return self._local
 
     # ------------------------------------------------------------------ patches
@@ -133,7 +142,9 @@ class Execution:
                     sys.settrace(None)
                     ex._finish()
             th.run = run
-            sys.settrace(None)
+            # (no settrace toggling here: CPython 3.12 implements settrace on top of the process-wide sys.monitoring instrumentation, and
+            #  switching it off and on in one thread while others are traced makes the delivery of the next 'call' events timing-dependent;
+            #  nothing below runs in a traced file, so there is no scheduling point to suppress anyway)
             try:
                 orig_start(th)
                 born.wait()
@@ -142,17 +153,12 @@ class Execution:
                     del th.run
                 except AttributeError:
                     pass
-                sys.settrace(ex._tracer)
 
         def join(th, timeout=None):
             name = getattr(th, '_verif_name', None)
             if name is None or ex.me() is None or ex.threads.get(name) is not th:
                 return orig_join(th, timeout)
-            sys.settrace(None)
-            try:
-                ex._block_until_done(name)
-            finally:
-                sys.settrace(ex._tracer)
+            ex._block_until_done(name)
             return orig_join(th, timeout)
         T.start = start
         T.join = join
